@@ -65,7 +65,8 @@ def r_term(t, st):
         return "?" + st["ren"].get(t[1], t[1])
     if t[0] == "u":
         if st["prefix"] and t[1].startswith(EX):
-            local = t[1][len(EX) :]
+            # local part as a prefixed name demands it: reserved punctuation behind a backslash, %HH as it stands
+            local = "".join("\\" + ch if ch in "~!$&'()*+,;=/?#@" else ch for ch in t[1][len(EX) :])
             if st["prefix"] is True:
                 return "ex:" + local
             # two prefixes for one namespace in one query: both declared, or one declared and one bound on the graph
@@ -163,9 +164,9 @@ def text_of(q, prefix=False, ren=None, undeclared=False, ns=None):
 
 # ----------------------------------------------------------------------------- generation
 
-SUBS = [u("a"), u("b"), ["b", "n1"], u("c")]
+SUBS = [u("a"), u("b"), ["b", "n1"], u("c"), u("c~d"), u("e%7Ef")]
 PREDS = [["u", P], ["u", Q], ["u", R_]]
-OBJS = [u("a"), u("b"), u("c"), ["b", "n1"], ["l", "", None, None], ["l", "0", None, XSD + "integer"], ["l", "3", None, XSD + "integer"], ["l", "x", None, None], ["l", "false", None, XSD + "boolean"]]
+OBJS = [u("a"), u("b"), u("c"), u("c~d"), u("e%7Ef"), ["b", "n1"], ["l", "", None, None], ["l", "0", None, XSD + "integer"], ["l", "3", None, XSD + "integer"], ["l", "x", None, None], ["l", "false", None, XSD + "boolean"]]
 
 
 SUBS_C = [t for t in SUBS if t[0] != "b"]  # constants usable inside query text (a blank node there would be a variable)
@@ -203,6 +204,9 @@ def _query(g):
         where.insert(0, {"t": "values", "var": "s", "vals": [g.pick(SUBS_C) for _ in range(g.randint(1, 3))]})
         if g.chance(0.5):
             where.insert(1, {"t": "filter", "e": ["exists", [[V("s"), g.pick(PREDS), V("e1")]]]})
+            if g.chance(0.5):
+                del where[2]  # no basic graph pattern at all: the filter alone looks at the data
+                outer_bgp_vars = []
         outer_bgp_vars = [v for v in outer_bgp_vars if v != "s"]
     for _ in range(g.randint(0, 3)):
         k = g.choice(["optional", "optional-filter", "union", "minus", "filter", "bind", "values", "subselect", "group", "bgp2"])
@@ -223,7 +227,10 @@ def _query(g):
             where.append({"t": "values", "var": g.choice(["s", "o", "vv"]), "vals": [g.choice(SUBS_C + [None]) for _ in range(g.randint(1, 3))]})
         elif k == "subselect":
             uses_sub = True
-            where.append({"t": "subselect", "q": {"select": ["o"], "distinct": g.chance(0.5), "where": [{"t": "bgp", "triples": [[V("o"), g.pick(PREDS), V("k")]]}]}})
+            # the inner variable that is not projected is local to the sub-query, also when the outer pattern uses the same name
+            iv = g.choice(["k", "k", "s", "z", "x"])
+            where.append({"t": "subselect", "q": {"select": ["o"], "distinct": g.chance(0.5), "where": [{"t": "bgp", "triples": [[V("o"), g.pick(PREDS), V(iv)]]}]}})
+            outer_bgp_vars = [v for v in outer_bgp_vars if v != iv]
         elif k == "group":
             if g.chance(0.5):
                 # a group with its own MINUS: what it removes must not depend on what the neighbouring group binds
@@ -232,6 +239,11 @@ def _query(g):
                 # pre-binding a variable that a nested MINUS mentions is not the same as joining a VALUES row afterwards (the
                 # nested group does not see the outer binding in the algebra): like a sub-query reusing the variable
                 outer_bgp_vars = [v for v in outer_bgp_vars if v != mv]
+            elif g.chance(0.4):
+                # a group whose filter mentions a variable that only the neighbouring pattern binds: inside the group it is unbound
+                fv = g.choice(["s", "o"])
+                where.append({"t": "group", "p": [{"t": "bgp", "triples": [[V("gx"), g.pick(PREDS), V("gy")]]}, {"t": "filter", "e": g.choice([["bound", fv], ["!bound", fv], ["!=", V(fv), V("gx")]])}]})
+                outer_bgp_vars = [v for v in outer_bgp_vars if v != fv]
             else:
                 where.append({"t": "group", "p": [_bgp(g)]})
         else:
@@ -290,7 +302,7 @@ def _rewrites(g, q):
     # move a trailing group in front of the leading basic graph pattern (join is commutative)
     q5 = copy.deepcopy(q)
     w5 = q5["where"]
-    if len(w5) >= 2 and w5[0]["t"] == "bgp" and w5[-1]["t"] == "group" and all(e["t"] in ("bgp", "group", "union", "subselect") for e in w5):
+    if len(w5) >= 2 and w5[0]["t"] == "bgp" and w5[-1]["t"] in ("group", "subselect") and all(e["t"] in ("bgp", "group", "union", "subselect") for e in w5):
         w5.insert(0, {"t": "group", "p": [w5.pop(0)]})
         w5.insert(0, w5.pop())
         out.append(("swap-join", q5, None, False))
@@ -313,6 +325,9 @@ def generate(seed, tier):
     nq = g.randint(1, 3)
     queries = [_query(g) for _ in range(nq)]
     cfg = {"data": data, "data2": data2, "queries": queries, "split": [g.randrange(3) for _ in data]}
+    if g.chance(0.3):
+        # some triples are held by two member graphs of the aggregate: the aggregate is still that one set of triples
+        cfg["dup"] = [g.randrange(len(data)) for _ in range(g.randint(1, 3))] if data else []
     ops = []
     live = []
     nr = 0
@@ -398,6 +413,10 @@ def execute(trace, ctx):
     parts = [Graph(Memory()) for _ in range(3)]
     for t, k in zip(triples, cfg["split"]):
         parts[k % 3].add(t)
+    for j in cfg.get("dup", []):
+        if j < len(triples):
+            parts[(cfg["split"][j] + 1) % 3].add(triples[j])
+            ctx.probe("aggregate-members-overlap")
     graphs["aggregate"] = ReadOnlyGraphAggregate(parts)
     ds = Dataset()
     load(ds.default_graph, triples)
@@ -573,6 +592,8 @@ def simplify(trace):
         t = copy.deepcopy(trace)
         del t["config"]["data"][j]
         del t["config"]["split"][j]
+        if "dup" in t["config"]:
+            t["config"]["dup"] = [d - (d > j) for d in t["config"]["dup"] if d != j]
         yield t
     for qi, q in enumerate(trace["config"]["queries"]):
         for j in range(1, len(q["where"])):
